@@ -223,6 +223,15 @@ func (s *Source) Read(p []byte) (int, error) {
 	}
 	size := int64(len(s.Data))
 	if s.pos >= size {
+		if f := s.fault; f != nil && f.Kind == "read_err" && f.Off >= size && !s.transientDone {
+			// an I/O error in place of the end of file
+			s.St.FaultFired++
+			if !f.Sticky {
+				s.transientDone = true
+			}
+			s.event(3, s.pos, 0, 3)
+			return 0, ErrInjected
+		}
 		s.event(1, s.pos, 0, 2)
 		return 0, io.EOF
 	}
